@@ -594,6 +594,90 @@ def r7(k: Kit) -> None:
               de.loc(de.node))
 
 
+K_ENCODING = {
+    # class -> wire constructor of the shared secret K handed to the hash
+    # and the key derivation (RFC 4253 §8, RFC 5656 §4, RFC 8731 §3.1: mpint;
+    # the PQ/T hybrids of draft-kampanakis-curdle-ssh-pq-ke: string)
+    'kex_dh._KexDHBase': 'MPInt',
+    'kex_dh._KexECDH': 'MPInt',
+    'kex_dh._KexHybridECDH': 'String',
+}
+
+
+def r12(k: Kit) -> None:
+    """K is an mpint made from the integer."""
+    rep = k.rep
+    rep.rule('C02.R12', 'shared secret encoding: _compute_client_shared / '
+             '_compute_server_shared of the DH and ECDH exchanges return '
+             'MPInt(<integer from get_shared>) - the canonical mpint, no '
+             'leading zero bytes kept, sign byte only when needed; the '
+             'hybrid exchanges return String(hash). A hand-made encoding '
+             'of the raw secret bytes disagrees with every other '
+             'implementation for about one exchange in 256-512')
+    n = 0
+    for cq, ctor in K_ENCODING.items():
+        for fn in ('_compute_client_shared', '_compute_server_shared'):
+            q = f'{cq}.{fn}'
+            if not k.idx.has_func(q):
+                continue
+            fi = k.func(q)
+            g = k.cfg(fi)
+            for r in [x for x in g.nodes if x.kind == 'return']:
+                n += 1
+                v = r.ast.value
+                ok = is_call(v, ctor) and len(v.args) == 1
+                if ok and ctor == 'MPInt':
+                    ok = is_call(v.args[0], 'get_shared')
+                rep.check(ok, 'C02.R12', key(fi, f'K is {ctor}(...)'),
+                          f'return {ctor}(...get_shared(...))'
+                          if ctor == 'MPInt' else f'return {ctor}(...)',
+                          f'`{norm(r.ast)}`: K is not the canonical '
+                          f'{ctor} of the shared secret - when the secret '
+                          'starts with a zero byte the exchange hash and '
+                          'all six keys differ from the peer\'s ("Key '
+                          'exchange hash mismatch" against OpenSSH, about '
+                          '1 in 512 connections)', k.loc(fi, r))
+    rep.floor('C02.R12', 'shared-secret returns', n, 6)
+
+
+def r13(k: Kit) -> None:
+    """Compression starts afresh with every NEWKEYS."""
+    rep = k.rep
+    rep.rule('C02.R13', 'send_newkeys creates a new compressor and a new '
+             '(staged) decompressor at every key exchange - the stores are '
+             'unconditional calls of get_compressor / get_decompressor: '
+             'RFC 4253 §6.2 re-initialises the compression context with '
+             'the new keys, a peer that does cannot inflate packets that '
+             'continue the old deflate stream')
+    fi = k.func(CONN + 'send_newkeys')
+    g = k.cfg(fi)
+    n = 0
+    for fld, fn in (('self._compressor', 'get_compressor'),
+                    ('self._next_decompressor', 'get_decompressor')):
+        st = k.stores_to(fi, fld)
+        for nd, v in st:
+            n += 1
+            fresh = v is not None and is_call(v, fn)
+            # not skipped when a context already exists
+            cond = any(
+                a.kind == 'atom' and a.ast is not None and any(
+                    d in names_read(a.ast) for d in (
+                        'self._compressor', 'self._decompressor',
+                        'self._next_decompressor'))
+                and g.path(a.id, nd.id) is not None for a in g.nodes)
+            rep.check(fresh and not cond, 'C02.R13',
+                      key(fi, f'{fld[5:]} renewed at NEWKEYS'),
+                      f'{fld} = {fn}(...) unconditionally',
+                      f'`{fld} = {norm(v) if v is not None else "?"}` '
+                      '(or a test on the existing context in front of it): '
+                      'the zlib context of the first exchange survives a '
+                      're-key, asyncssh to asyncssh stays in sync, an RFC '
+                      'peer fails with "incorrect header check" on the '
+                      'first packet after the second NEWKEYS',
+                      k.loc(fi, nd))
+    rep.floor('C02.R13', 'compression context stores', n, 4)
+
+
 def run(idx, rep, tier):
     k = Kit(idx, rep)
     rep.assumptions += NOT_DECIDED
@@ -609,6 +693,8 @@ def run(idx, rep, tier):
     r5(k)
     r6(k)
     r7(k)
+    r12(k)
+    r13(k)
     # R8: MAC input layouts (= C01.R9)
     from .c01 import r9 as c01r9
     rep.rule('C02.R8', 'MAC input layouts (= C01.R9): HMAC over UInt32(seq) '
